@@ -232,6 +232,8 @@ func Execute(t *testing.T, c *Case, dir string, rr *raceReader, runWall time.Dur
 	})
 	defer wd.Stop()
 	before := simrt.RaceErrors()
+	// map iteration inside the code under test is a function of the run's seed (rewrite R5)
+	simrt.SetMapSeed(simrt.Mix(c.Seed^0x6d6170) | 1)
 	var v *Verdict
 	func() {
 		defer func() {
@@ -333,6 +335,10 @@ func WorkerMain(t *testing.T) {
 		writeJSON(statsFile, st)
 		os.Exit(code)
 	}
+	var runlog *os.File
+	if dir := os.Getenv("VERIF_RUNLOG"); dir != "" {
+		runlog, _ = os.OpenFile(filepath.Join(dir, fmt.Sprintf("runlog-%s-%d.txt", a.Property, a.Worker)), os.O_CREATE|os.O_APPEND|os.O_WRONLY, 0o644)
+	}
 	i := a.Start
 	for ; i < a.Count; i += a.Stride {
 		if a.WallCapS > 0 && time.Since(t0) > time.Duration(a.WallCapS)*time.Second {
@@ -344,6 +350,9 @@ func WorkerMain(t *testing.T) {
 		v := Execute(t, c, filepath.Join(a.OutDir, fmt.Sprintf("tmp-%d", a.Worker), fmt.Sprint(i)), rr, time.Duration(a.RunWallS)*time.Second, progress)
 		st.Runs++
 		st.Next = i + a.Stride
+		if runlog != nil {
+			fmt.Fprintf(runlog, "%d %d %s %s y=%d d=%d s=%d a=%d il=%d\n", i, c.Seed, v.Class, v.Sig, v.Counters["yields"], v.Counters["sched_decisions"], v.Counters["context_switches"], v.Counters["arrivals"], v.IL)
+		}
 		st.SimNs += v.SimNs
 		for k, n := range v.Counters {
 			st.Counters[k] += n
